@@ -5,6 +5,7 @@ from __future__ import annotations
 import enum
 import threading
 import time
+import traceback
 from collections import deque
 from dataclasses import dataclass
 from threading import Lock
@@ -258,6 +259,9 @@ class ConsumerMdib(mdibbase.MdibBase):
                 self._logger.info('found context states in GetMdib Result, will not call getContextStates')
 
             # process buffered notifications
+            # (one transaction can cause several reports with the same mdib version: compare with the version of the
+            # GetMdibResponse, not with self.mdib_version, which follows the reports that are replayed here)
+            initial_mdib_version = self.mdib_version
             with self._buffered_notifications_lock:
                 self._logger.debug('got _buffered_notifications_lock')
                 for buffered_report in self._buffered_notifications:
@@ -268,13 +272,18 @@ class ConsumerMdib(mdibbase.MdibBase):
                             buffered_report.mdib_version_group.sequence_id,
                         )
                         continue
-                    if buffered_report.mdib_version_group.mdib_version <= self.mdib_version:
+                    if buffered_report.mdib_version_group.mdib_version <= initial_mdib_version:
                         self.logger.debug(
                             'older mdib version "%d"; ignore buffered report',
                             buffered_report.mdib_version_group.mdib_version,
                         )
                         continue
-                    buffered_report.handler(buffered_report.mdib_version_group, buffered_report.data)
+                    try:
+                        buffered_report.handler(buffered_report.mdib_version_group, buffered_report.data)
+                    except Exception:  # noqa: BLE001
+                        # same policy as for reports that arrive later: a report that cannot be applied
+                        # (e.g. one that was delivered twice) is logged, it does not abort the initialization
+                        self._logger.error('could not apply buffered report: %s', traceback.format_exc())
                 del self._buffered_notifications[:]
                 self._state = ConsumerMdibState.initialized
             self._logger.info('reload_all done')
